@@ -44,5 +44,12 @@ def mutate(i, path, what):
     return SESSION.mutate(x, what)
 
 
+def unbox_raw(package):
+    """unbox a hand-made package here, on B's own dispatching thread (a request `_unbox` may issue is then served by
+    the waiting caller, as for any received message), and describe what came out"""
+    v = SESSION.cb._unbox(package)
+    return SESSION.describe(v, "b")
+
+
 def ping():
     return None
